@@ -80,8 +80,8 @@ func loadProgram(repo string, contracts map[string]*ContractFile, pkgPaths []str
 		BuildFlags: []string{"-tags=verif"},
 		Env: append(os.Environ(), "GOFLAGS=-mod=mod", "GOPROXY=off", "GOSUMDB=off", "GOTOOLCHAIN=local",
 			"PATH=/opt/veriftools/go1.26.8/bin:"+os.Getenv("PATH")),
-		Overlay:    overlay,
-		ParseFile:  nil,
+		Overlay:   overlay,
+		ParseFile: nil,
 	}
 	var patterns []string
 	for _, p := range pkgPaths {
